@@ -188,6 +188,28 @@ pub open spec fn skip_nl(b: Seq<u8>) -> Seq<u8>
 """)
     n.insert_before("for record in mapping.iter()", "proof { lemma_records_len(mapping.source@); }\n        let ghost _len_bound = mapping.source.len();\n        ")
     u.emit(n)
+    # the accessors: each returns its own field (a swapped pair would still type-check: compiler / compiler_version, class_count / method_count)
+    for name in ("compiler", "compiler_version", "min_api", "class_count", "method_count"):
+        g = mp.impl_fn(MS, name)
+        g.ret("ret")
+        g.contracted = True
+        g.props_all = ["C19"]
+        g.props_safety = ["C13"]
+        g.contract("    ensures /*@L:accessor_%s_returns_its_field:C19*/ ret == self.%s," % (name, name))
+        u.emit(g)
+    u.raw("}\n", "glue")
+    # ProguardMapping::summary is MappingSummary::new of the same mapping
+    u.raw(mp.impl_header(PM) + "{\n", "glue")
+    sm = mp.impl_fn(PM, "summary")
+    sm.ret("ret")
+    sm.contracted = True
+    sm.props_all = ["C19"]
+    sm.props_safety = ["C13"]
+    sm.contract("""    ensures ({ let recs = records(self.source@); let n = recs.len() as int;
+        &&& /*@L:summary_is_the_summary_of_this_mapping:C19*/ ret.class_count == count_upto(recs, n, |r| is_class(r)) && ret.method_count == count_upto(recs, n, |r| is_method(r))
+        &&& ret.compiler == last_header(recs, n, "compiler"@) && ret.compiler_version == last_header(recs, n, "compiler_version"@) && ret.min_api == last_min_api(recs, n)
+    }),""")
+    u.emit(sm)
     u.raw("}\n", "glue")
     u.raw(FOOTER, "footer")
     return u
